@@ -25,6 +25,26 @@ STRUCTS = {
                masses=[41000.0, 52000.5, 68000.0]),
 }  # fmt: skip
 
+EDGE_SPAN = (0.0, 500.0)  # whole-table flight-level range of the 'edge/...' structures
+
+
+def get_struct(name):
+    """A named structure, or 'edge/<phase>/<bottom|top>/<level>': the named phase has a flight-level
+    range narrower than the whole table on that side, with its own edge at <level>; the two other
+    phases span the whole range."""
+    if name in STRUCTS:
+        return STRUCTS[name]
+    kind, ph, side, lvl = name.split('/')
+    assert kind == 'edge' and ph in PHASES and side in ('bottom', 'top')
+    lo, hi = EDGE_SPAN
+    lvl = float(lvl)
+    assert lo < lvl < hi - 30
+    full = [lo, 250.25, hi]
+    fls = {p: list(full) for p in PHASES}
+    fls[ph] = [lvl, hi - 24.5, hi] if side == 'bottom' else [lo, 0.5 * lvl, lvl]
+    return dict(fls=fls, masses=[52000.0, 61000.0, 74000.5])
+
+
 VALGENS = ('lin', 'zig', 'tiny0')
 GOLD = 0.6180339887498949
 SQ2 = 0.41421356237309515
@@ -70,7 +90,7 @@ def node_values(valgen, phase, i, j, fl, mass):
 
 def blocks(struct, valgen):
     """{phase: [row dict]} in generation order (FL ascending, mass ascending)."""
-    st = STRUCTS[struct]
+    st = get_struct(struct)
     out = {}
     for ph in PHASES:
         rows = []
@@ -238,6 +258,12 @@ class RefTable:
                         d = abs(self.nodes[ph][(f, ms[b + 1])][c] - self.nodes[ph][(f, ms[b])][c])
                         best[c] = max(best[c], d / (ms[b + 1] - ms[b]))
         return tuple(best)
+
+
+def phase_shape(rows):
+    """{phase: (#levels, #masses)} of the rows as labelled by the harness."""
+    return {ph: (len({r['fl'] for r in rows if r['ph'] == ph}), len({r['mass'] for r in rows if r['ph'] == ph}))
+            for ph in PHASES}  # fmt: skip
 
 
 def incomplete_phases(rows):
